@@ -136,7 +136,8 @@ CLAIMED["C17"] = (
 CLAIMED["C20"] = (
     "Coq proof that source-map rendering adds only comments and line directives to base rendering + correspondence: token streams of real base and source-map outputs; differential execution of base-mode and modifier-mode code against each other and the flow semantics model",
     "Partial, labelled so. Theorem: for every template output and any token values the code of the source-map file equals the code of the base file (C20_sourcemap_same_code) and no magic comment remains. Modifier mode (subset: Params, "
-    "Results, Concurrency, plain Tasks) is decided by differential execution only: same results and errors as base-mode code and as FlowSemModel for all single-outcome scenarios {ok, error, panic} of generated subset flows. Known "
+    "Results, Concurrency, plain Tasks) has no model of its own templates; it is tied to the same operational model as base mode: the Dependencies of the emitted implementation functions must contain the model's job graph, and "
+    "its code must return the same results and errors as base-mode code and as FlowSemModel for all single-outcome scenarios {ok, error, panic} of generated subset flows. Known "
     "finding F10 (function-local types in modifier mode) is reported as KNOWN-FINDING from the named probe LocalType.",
     GEN_NOTE, "DESIGN.md §7 C20")
 CLAIMED["C10"] = (
